@@ -176,6 +176,40 @@ func runConstraints(rc *sim.RunCtx, prop string) {
 				rc.Report(sim.Item{Prop: "C03", Clause: "C03.running-changed", Step: step, Fields: f, Detail: fmt.Sprintf("-%v +%v", a, b)})
 			}
 		}
+		if (!accepted || dry) && prop == "C03" && t.Bool(1, 3) {
+			// a rejected or dry-run request leaves nothing behind that a later Cancel / Confirm of its id could act on
+			rc.Probe("cancel-after-rejection")
+			setsBefore := len(w.Dev.Sets)
+			var cerr error
+			verb := "TransactionCancel"
+			if t.Bool(1, 2) {
+				cerr = Cancel(rc, w, tx.ID)
+			} else {
+				verb = "TransactionConfirm"
+				cerr = Confirm(rc, w, tx.ID)
+			}
+			ff := copyFields(f)
+			ff["verb"] = verb
+			ff["dry"] = fmt.Sprint(dry)
+			if cerr == nil {
+				rc.Report(sim.Item{Prop: "C03", Clause: "C03.rejected-left-open", Step: step, Fields: ff, Detail: verb + " of the id of a rejected / dry-run TransactionSet succeeded: the request left an open transaction behind"})
+			}
+			if len(w.Dev.Sets) != setsBefore {
+				rc.Report(sim.Item{Prop: "C03", Clause: "C03.device-written", Step: step, Fields: ff, Detail: fmt.Sprintf("%d device calls during %s of a rejected / dry-run TransactionSet", len(w.Dev.Sets)-setsBefore, verb)})
+			}
+			intAfter, e1 := w.DumpIntended()
+			cfgAfter, e2 := w.DumpConfig()
+			if e1 != nil || e2 != nil {
+				rc.HarnessErr("dump: %v %v", e1, e2)
+				return
+			}
+			if a, b := diffSets(world.RenderEntries(intBefore, true), world.RenderEntries(intAfter, true)); len(a)+len(b) > 0 {
+				rc.Report(sim.Item{Prop: "C03", Clause: "C03.intended-changed", Step: step, Fields: ff, Detail: fmt.Sprintf("after %s: -%v +%v", verb, a, b)})
+			}
+			if a, b := diffSets(world.RenderEntries(cfgBefore, false), world.RenderEntries(cfgAfter, false)); len(a)+len(b) > 0 {
+				rc.Report(sim.Item{Prop: "C03", Clause: "C03.running-changed", Step: step, Fields: ff, Detail: fmt.Sprintf("after %s: -%v +%v", verb, a, b)})
+			}
+		}
 		if accepted && dry {
 			// the same request for real, from the same state: device must receive what the dry run reported
 			rc.Probe("dryrun-then-real")
@@ -303,7 +337,7 @@ func c04flat(rc *sim.RunCtx, m *Model, dis config.Validators, seqVal bool, step 
 func init() {
 	Register(&sim.Check{
 		ID: "C03", Level: "exploration", Run: func(rc *sim.RunCtx) { runConstraints(rc, "C03") },
-		Rule: "histories over the constraints profile of vsim (range, length, pattern incl. inverted, leaf-list range, mandatory, leafref, must across siblings and branches, min/max-elements); each value draw is invalid with probability 0/8/20 % per run, cross-leaf constraints become invalid through the history itself; a third of the transactions are dry runs; mixed valid/invalid intents occur naturally in multi-intent transactions; a final request with an invalid replace intent in half of the runs. Oracle: rejected or dry-run => no device call, both stores identical; dry run followed by the same request for real => device receives exactly the reported updates/deletes; invalid replace never answered with success. Non-trivial = a step the evaluator judges invalid; distinct = signature (edit kinds, dry, verdicts, violated classes).",
+		Rule: "histories over the constraints profile of vsim (range, length, pattern incl. inverted, leaf-list range, mandatory, leafref, must across siblings and branches, min/max-elements); each value draw is invalid with probability 0/8/20 % per run, cross-leaf constraints become invalid through the history itself; a third of the transactions are dry runs; mixed valid/invalid intents occur naturally in multi-intent transactions; a final request with an invalid replace intent in half of the runs. Oracle: rejected or dry-run => no device call, both stores identical; dry run followed by the same request for real => device receives exactly the reported updates/deletes; invalid replace never answered with success; in a third of the rejected / dry-run steps TransactionCancel or TransactionConfirm of that id follows and must fail without touching device or stores. Non-trivial = a step the evaluator judges invalid; distinct = signature (edit kinds, dry, verdicts, violated classes).",
 		Real: realCore, Stub: stubCore,
 		RequiredProbes: []string{"dryrun-then-real", "invalid-replace"},
 		QuickSeconds:   30, ThoroughSeconds: 480,
